@@ -1,0 +1,8 @@
+//go:build verif
+// +build verif
+
+package coordinator
+
+// VerifRunOnce runs exactly one coordination cycle.
+// It exists only with the "verif" build tag (runOnce is unexported and Run loops with sleeps).
+func (c *Coordinator) VerifRunOnce() error { return c.runOnce() }
